@@ -1210,6 +1210,14 @@ func (x *expander) funcValues(root ast.Node) {
 	ast.Inspect(root, func(n ast.Node) bool {
 		if c, ok := n.(*ast.CallExpr); ok {
 			callFun[ast.Unparen(c.Fun)] = true
+			// an explicitly instantiated generic callee (`f[T](..)`): the function name inside the index expression is part
+			// of the call, not a function value
+			switch ix := ast.Unparen(c.Fun).(type) {
+			case *ast.IndexExpr:
+				callFun[ast.Unparen(ix.X)] = true
+			case *ast.IndexListExpr:
+				callFun[ast.Unparen(ix.X)] = true
+			}
 		}
 		return true
 	})
